@@ -1150,6 +1150,16 @@ class PopulationRows(Suite):
             rng.shuffle(feats)
             reqs = [{"feat": f, "form": rng.choice(["kw", "kw", "list", "dict"])} for f in feats]
             out.append({"class": f"{kind}/{mix}", "kind": kind, "groups": groups, "requests": reqs})
+        # the smallest collections: Populations of ONE population, populations of ONE tree (a directory with a single file)
+        for k, (np_, nt) in enumerate([(1, 1), (1, 2), (2, 1), (1, 3)] * (1 if not big else 3)):
+            mix = self.MIXES[(k * 5 + 1) % len(self.MIXES)]
+            if mix.startswith(("some", "single-node+")) and nt < 2:
+                mix = "all-branching"
+            groups = [members(mix, nt) for _ in range(np_)]
+            feats = list(ROW_FEATURES)
+            rng.shuffle(feats)
+            reqs = [{"feat": f, "form": ["kw", "list", "dict"][(k + j) % 3]} for j, f in enumerate(feats)]
+            out.append({"class": f"populations/{np_}x{nt}/{mix}", "kind": "populations", "groups": groups, "requests": reqs})
         return out
 
     def run(self, case):
